@@ -200,10 +200,9 @@ class TaskingEngine(metaclass=ABCMeta):
         Args:
             missed_observations (``list``): :class:`.MissedObservation` to save
         """
-        for miss in missed_observations:
-            if miss:
-                self._missed_observations.extend(missed_observations)
-                self._saved_missed_observations.extend(missed_observations)
+        missed_observations = [miss for miss in missed_observations if miss]
+        self._missed_observations.extend(missed_observations)
+        self._saved_missed_observations.extend(missed_observations)
 
     def updateFromAsyncTaskExecution(self, sensor_info_list: list) -> None:
         """Save Changes to sensor as a result of tasking.
